@@ -10,7 +10,17 @@ SPEC = r"""
 use vstd::prelude::*;
 verus! {
 pub struct VErr;
-#[verifier::external_body] pub struct Primitive { x: usize }
+// a value: a bool, a pointer to a list element / field / map entry, or anything else
+#[verifier::external_body] pub struct HeapP { x: usize }
+#[verifier::external_body] pub struct OtherP { x: usize }
+pub enum Primitive { Bool(bool), HeapPrimitive(HeapP), Other(OtherP) }
+pub uninterp spec fn pointee(h: HeapP) -> Primitive;           // what the pointer denotes at this moment
+pub open spec fn deref(p: Primitive) -> Primitive { match p { Primitive::HeapPrimitive(h) => pointee(h), _ => p } }
+impl Primitive {
+    #[verifier::external_body] pub fn move_out_of_heap_primitive(self) -> (r: Result<Primitive, VErr>) ensures r is Ok ==> r->Ok_0 == deref(self) { unimplemented!() }
+}
+pub enum ReturnValue { FFIError(PathV), NoValue, Value(Primitive) }
+#[verifier::external_body] pub fn i32_to_usize(x: i32) -> (r: Result<usize, VErr>) ensures r is Ok <==> x >= 0, r is Ok ==> r->Ok_0 == x { unimplemented!() }
 #[verifier::external_body] pub fn clone_prim(p: &Primitive) -> (r: Primitive) ensures r == *p { unimplemented!() }
 // the visited list as it is NOW (the callback runs between two visits and may have changed it)
 #[verifier::external_body] pub struct ListNow { x: usize }
@@ -60,6 +70,30 @@ def wait_for_body(src, log, op):
         Rule("R12", "vec ! [ this_value ]", "vec1 ( this_value )", why="vec![x]"),
     ], log, f"{op}::wait_for")
     check_closed(b, f"{op}::wait_for")
+    return b
+
+
+def then_body(src, log, op):
+    frun = src.fn(FUNC, "run", "impl BuiltInFunction")
+    try:
+        it = extract_item(frun["body"], f"impl RuntimeExecutionBridgeNotifier for {op}")
+        f = extract_fn(it["body"], "then")
+    except Exception as e:
+        raise Undecided(f"{FUNC}: `impl RuntimeExecutionBridgeNotifier for {op}` / then not found: {e}")
+    b = translate(f["body"], [
+        Rule("R10", "let mut result = self . map_result . 0 . borrow_mut ( ) ;", "", why="GcCell borrow of the result list: the list is a &mut parameter (R10)"),
+        Rule("R10", "let mut result = self . filter_result . 0 . borrow_mut ( ) ;", "", why="GcCell borrow of the result list: the list is a &mut parameter (R10)"),
+        Rule("R10", "let underlying = self . underlying . 0 . borrow ( ) ;", "", why="GcCell borrow: the visited list as it is now is a parameter (R10)"),
+        Rule("R10", "self . underlying . 0 . borrow ( ) . len ( )", "underlying . len ( )", why="GcCell borrow (R10)"),
+        Rule("R10", "self . index . get ( )", "index", why="Cell<i32> counter as a plain value (R10)"),
+        Rule("R7", "< i32 as TryInto < usize >> :: try_into ( $e ) ?", "i32_to_usize ( $e ) ?", why="i32 -> usize conversion with its failure"),
+        Rule("R7", "let $n : usize = ( $$e ) . try_into ( ) ? ;", "let $n : usize = i32_to_usize ( $$e ) ? ;", why="i32 -> usize conversion with its failure"),
+        Rule("R8", "underlying [ $i ]", "underlying . verif_index ( $i )", why="slice index with its panic precondition"),
+        Rule("R3", ". context ( $$m ) ?", ". verif_ctx ( ) ?", why="context text dropped; None -> Err"),
+        Rule("R3", ". with_context ( $$m ) ?", ". verif_ctx ( ) ?", why="context text dropped; None -> Err"),
+        Rule("R1", ". clone ( )", ". verif_clone ( )", why="clone of an opaque value"),
+    ], log, f"{op}::then")
+    check_closed(b, f"{op}::then")
     return b
 
 
@@ -115,6 +149,29 @@ def build(repo):
         bw = ["this" if t == "self" else t for t in wait_for_body(src, log, op)]
         bn = new_body(src, log, op)
         bh = head_of_arm(src, log, arm, op)
+        bt = then_body(src, log, op)
+        if op == "MapOp":
+            then_post = """        // C13: the result list grows by the VALUE the function returned (not by a pointer into another list / object / map)
+        && (return_value is Value ==> final(result)@ == old(result)@.push(deref(return_value->Value_0)))
+        && (!(return_value is Value) ==> final(result)@ == old(result)@),"""
+        else:
+            then_post = """        // C13: the element just visited is kept exactly when the function returned true -- as a value or through a pointer
+        && (keeps(return_value) ==> 0 < index <= items(underlying).len() && final(result)@ == old(result)@.push(items(underlying)[index - 1]))
+        && (!keeps(return_value) ==> final(result)@ == old(result)@),"""
+        fns.append(f"""
+//@ OBL C13.bridge.{arm}.then
+// {op}::then: what one answer of the function does to the result list; never indexes past the list as it is at that moment
+pub fn {op}_then(return_value: ReturnValue, index: i32, underlying: &ListNow, result: &mut Vec<Primitive>) -> (r: Result<bool, VErr>)
+    requires 0 <= index,
+        // the answer is what the function's `ret` signalled: a value, never a pointer (obligation C01.handler.ret; Function::run hands it on unchanged -- C01.run.step)
+        return_value is Value ==> !(return_value->Value_0 is HeapPrimitive),
+    ensures r is Ok ==> r->Ok_0 == (index < items(underlying).len())
+{then_post}
+{{
+{render(bt, 1)}
+}}
+""")
+        obls.append(Obl(f"C13.bridge.{arm}.then", ["C13", "C17"], fn=f"{op}::then", desc=f"{op}::then: the result list receives the returned value itself (map) / the visited element exactly when the answer is true, also through a pointer (filter); no index past the end of the list as it is then"))
         fns.append(f"""
 //@ OBL C17.bridge.{arm}.visit
 // {op}::wait_for: visiting the next element -- for ANY length the list has at that moment (the callback may have removed elements)
@@ -148,10 +205,10 @@ pub fn {arm}_head(v: &ListNow) -> (r: Option<usize>)
         obls.append(Obl(f"C17.bridge.{arm}.visit", ["C17", "C13", "C07"], fn=f"{op}::wait_for", desc=f"{op}::wait_for: never indexes past the end of the list as it is at that moment (failure instead of a Rust panic)"))
         obls.append(Obl(f"C13.bridge.{arm}.empty", ["C13", "C17"], fn=f"BuiltInFunction::run[{arm}]", desc=f"{arm}: an empty receiver returns an empty list without starting the callback bridge (the bridge protocol calls wait_for before it tests for the end)"))
     gen = header(log, f"{FUNC}: BuiltInFunction::run arms VecMap / VecFilter (head), MapOp::wait_for, FilterOp::wait_for") + SPEC + \
-        "impl Primitive { pub fn verif_clone(&self) -> (r: Primitive) ensures r == *self { clone_prim(self) } }\n" + "\n".join(fns) + "\n} // verus!\nfn main() {}\n"
+        "pub open spec fn keeps(rv: ReturnValue) -> bool { rv is Value && deref(rv->Value_0) == Primitive::Bool(true) }\n" + "impl Primitive { pub fn verif_clone(&self) -> (r: Primitive) ensures r == *self { clone_prim(self) } }\n" + "\n".join(fns) + "\n} // verus!\nfn main() {}\n"
     return gen, obls, log
 
 
 UNITS = [VUnit("c17_bridge", ["C17", "C13", "C07"], "list.map / list.filter bridges: no out-of-range visit, empty receiver", build)]
-UNITS[0].assumes = ["fragments: the statements of the VecMap / VecFilter arms in front of the local struct definitions, and the wait_for methods of the two bridges; `then` / `finish` and the bridge loop of Function::run (abstract in C01.run.step) are not covered",
+UNITS[0].assumes = ["fragments: the statements of the VecMap / VecFilter arms in front of the local struct definitions, and the wait_for methods of the two bridges; `finish` and the bridge loop of Function::run (abstract in C01.run.step) are not covered",
                     "Cell<i32> / GcCell as plain state (R10); the visited list is arbitrary at each visit (the callback may change it)"]
